@@ -19,7 +19,8 @@
 (*                                                                                            *)
 (* Clauses (exactly the statement of C06):                                                    *)
 (*   DoubleActivation     a second activation of the code succeeded; detail "xnode:..." when  *)
-(*                        the two successful calls went through different nodes               *)
+(*                        the two successful calls went through different nodes,              *)
+(*                        "sameclient:..." when both were submitted by the same listen client *)
 (*   ActivatedInvalid     an activation succeeded although the code was expired / revoked     *)
 (*                        during the WHOLE call (the expiry, or a successful revoke, had      *)
 (*                        completed before the activation was called).  Every overlap is      *)
@@ -56,6 +57,7 @@ TrCall == /\ Is("Call")
 
 ActViol(e, c) ==
      (IF succ # {} THEN {V("DoubleActivation", (IF \E s \in succ : s.node # c.node THEN "xnode:" ELSE "")
+                                               \o (IF \E s \in succ : s.client = c.client THEN "sameclient:" ELSE "")
                                                \o (IF \E s \in succ : s.ret < c.line THEN "sequential" ELSE "concurrent"))} ELSE {})
   \cup (IF expLine # 0 /\ expLine < c.line THEN {V("ActivatedInvalid", "expired")} ELSE {})
   \cup (IF revRet # 0 /\ revRet < c.line THEN {V("ActivatedInvalid", "revoked")} ELSE {})
